@@ -45,9 +45,23 @@
   completeness assumption shrinks to `noLateOrphans` (nothing the master reports at a quiet point was left out of
   the CURRENT subscription's answer — which the code does not guarantee: finding `late_orphan_never_reconciled`), and
   identity is stated on presented AND assigned ids (`identityKept`, `oneFramework`).
+
+  STATUS UPDATES WHOSE OPTIONAL FIELDS ARE ABSENT (last section): Model/SparseStatus.lean layers the step
+  `handleSparse noAgent noExec` — taskman handles a message that lacks agent_id / executor_id, as an answer the master
+  builds to a reconciliation may — over all of the above. "Owned" as the rest of the core reads it is Task.isLocked(), which
+  needs both ids: the tasks of live environments must still be locked after any such answer, else the next sweep of unowned
+  tasks (creation of another environment, CleanupTasks, shutdown) kills them — "and only that". With the guards the code
+  has (`C18_status_id_copy_is_code`: go/ast facts Gen.TaskIds) the layer is conservative (`C18_sparse_updates_conservative`),
+  so for ALL histories with any number of sparse updates: every held task is in the roster, locked
+  (`C18_owned_stay_locked_under_sparse_updates`), at every quiet point (`C18_held_locked_at_every_quiet_point`: the new Spec
+  clause `heldLocked`), no reconciliation answer kills a roster task (`C18_roster_tasks_never_killed_under_sparse_updates`),
+  the whole Spec holds (`C18_code_meets_spec_under_sparse_updates`). Without the guards — NOT the code —
+  `C18_unguarded_id_copy_unlocks_owned`: one sparse reconciliation answer after a mere reconnection and the task of the live
+  environment is held but not locked; `C18_complete_updates_hide_the_difference`: complete answers cannot tell.
 -/
 import ControlModel.Proofs.Reconcile
 import ControlModel.Proofs.Resubscribe
+import ControlModel.Proofs.SparseStatus
 
 open Reconcile Spec.C18
 
@@ -585,6 +599,106 @@ theorem C18_code_meets_spec_over_reconnections (kv0 : Option Nat) (h : List RSte
   have h5 := orphansKilled_of_eachSubscription _ h2.1
   simp [allR, Spec.C18.all, h1.1, h1.2.1, h1.2.2.1, h1.2.2.2, h2.1, h2.2, h3, h4, h5]
 
+/-! ## status updates whose optional fields are absent -/
+
+/-- **The guards of the model are the guards of the code.** In updateTaskStatus both id copies stand in the
+    TASK_RUNNING clause, each under `if status.Get…ID() != nil` (go/ast, regenerated on every run), and nothing else in
+    package core/task writes a task's `agentId` / `executorId` but HandleAgentFailed / HandleExecutorFailed, which blank one
+    of them for the tasks of a lost agent / executor (dead tasks; C06). -/
+theorem C18_status_id_copy_is_code :
+    codeGuards = TaskIds.codeGuards ∧ Gen.TaskIds.copiesUnderRunningOnly = true ∧
+    Gen.TaskIds.idWriteSites = ["HandleAgentFailed:agentId:blank", "HandleExecutorFailed:executorId:blank",
+                                "updateTaskStatus:agentId:status", "updateTaskStatus:executorId:status"] := by decide
+
+/-- **Sparse updates change nothing**: with the code's guards a history in which any messages lack any optional fields
+    ends in the state the history with complete messages ends in — every theorem of the layers below carries over. -/
+theorem C18_sparse_updates_conservative (c : Cfg) (kv0 : Option Nat) (h : List SStep) :
+    srun TaskIds.codeGuards c h (rinit kv0) = rrun c (h.map SStep.erase) (rinit kv0) :=
+  srun_code c h _
+
+/-- **The tasks of live environments stay owned.** After ANY history — reconnections at any point, answers that leave
+    tasks out or bring them back, messages that lack agent_id and/or executor_id at any point — every task a live
+    environment holds has a roster entry of that environment, LOCKED: the next sweep of unowned tasks spares it. -/
+theorem C18_owned_stay_locked_under_sparse_updates (c : Cfg) (hrw : c.snapshotRewrite = false) (kv0 : Option Nat) (h : List SStep) :
+    let s := (srun TaskIds.codeGuards c h (rinit kv0)).base
+    (∀ t e, (t, e) ∈ s.held → ∃ r ∈ s.roster, r.id = t ∧ r.env = e ∧ r.locked = true) ∧
+    (∀ t, lockedIn s.roster t = heldBy s.held t) := by
+  intro s
+  have i : InvR s := by
+    show InvR (srun TaskIds.codeGuards c h (rinit kv0)).base
+    rw [srun_code]; exact invR_rrun c hrw _ _ (invR_init kv0)
+  exact ⟨fun t e hm => i.complete (t, e) hm, fun t => (heldBy_eq_lockedIn s i t).symm⟩
+
+/-- … in the form the driver evaluates on the real core: at every quiet point of every history every held task is
+    locked (`Spec.C18.heldLocked` of the views collected along the history). -/
+theorem C18_held_locked_at_every_quiet_point (c : Cfg) (hrw : c.snapshotRewrite = false) (kv0 : Option Nat) (h : List SStep) :
+    heldLocked (sviews TaskIds.codeGuards c h (rinit kv0)) = true :=
+  heldLocked_sviews c hrw h _ (invR_init kv0)
+
+/-- Roster tasks are never killed by a reconciliation answer, sparse or not. -/
+theorem C18_roster_tasks_never_killed_under_sparse_updates (c : Cfg) (hg : c.rosterGuard = true)
+    (hrw : c.snapshotRewrite = false) (kv0 : Option Nat) (h : List SStep) :
+    ownedSpared (srun TaskIds.codeGuards c h (rinit kv0)).base.log = true := by
+  rw [srun_code]; exact C18_roster_tasks_never_killed_over_reconnections c hg hrw kv0 _
+
+/-- Everything, at the configuration AND the guards read off the code on this run, for ALL histories with sparse
+    updates: the whole Spec on the log, on the SUBSCRIBE/SUBSCRIBED pairs and on the views at the quiet points
+    (hypotheses as in `C18_code_meets_spec_over_reconnections`, on the history with the omissions erased). -/
+theorem C18_code_meets_spec_under_sparse_updates (kv0 : Option Nat) (h : List SStep)
+    (hh : (h.map SStep.erase).all (rstepOk codeCfg) = true) (hno : noLateOrphans codeCfg (h.map SStep.erase) (rinit kv0) = true)
+    (hg : codeCfg.rosterGuard = true) :
+    allS (srun codeGuards codeCfg h (rinit kv0)).base.log (srun codeGuards codeCfg h (rinit kv0)).subs
+      (sviews codeGuards codeCfg h (rinit kv0)) = true := by
+  have hgd : codeGuards = TaskIds.codeGuards := C18_status_id_copy_is_code.1
+  have hs := C18_cfg_sound codeCfg C18_cfg_is_code
+  rw [hgd, srun_code]
+  simp only [allS, Bool.and_eq_true]
+  exact ⟨C18_code_meets_spec_over_reconnections kv0 _ hh hno hg, C18_held_locked_at_every_quiet_point codeCfg hs.norewrite kv0 h⟩
+
+/-- A complete message — both optional fields present, what the AliECS executor always sends and what a master with a
+    full task record answers — is handled alike with and without the guards: restarts, reconnections and incomplete
+    answer SETS (the layers below) cannot tell the configurations apart. -/
+theorem C18_complete_updates_hide_the_difference (g : TaskIds.Guards) (c : Cfg) (r : RSt) :
+    sstep g c r (.handleSparse false false) = sstep TaskIds.codeGuards c r (.handleSparse false false) := by
+  rw [sstep_full, sstep_full]
+
+/-- One environment RUNNING, the stream dropped and re-established, the master's reconciliation answer about the task
+    of the live environment (TASK_RUNNING, in the roster: it goes to updateTaskStatus) lacks executor_id; quiet points
+    before the drop and at the end. -/
+def C18_witness_sparse : List SStep :=
+  [.r (.base .coreStart), .r (.base .subscribe), .r (.base .read), .r (.base (.launch 0 0)), .r (.base (.status 0 .running)),
+   .r (.base .read), .r (.base .handle), .r (.base .snapshot),
+   .r (.base .drop), .r (.base .subscribe), .r (.base .read), .r (.base .read), .handleSparse false true, .r (.base .snapshot)]
+
+/-- **Without the guards (NOT the code) a sparse reconciliation answer un-owns the task of a live environment.** On
+    `C18_witness_sparse`, roster test in place: no KILL is made at reconciliation time, the task stays in the roster and
+    its environment holds it — but it is no longer locked: the roster invariant `C18_owned_stay_locked_under_sparse_updates`
+    (what `C18_owned_spared_fixed` and every sweep of unowned tasks rest on) is gone and the Spec clause `heldLocked`
+    rejects the second quiet point. With the code's guards the same history leaves the task locked and the whole Spec true. -/
+theorem C18_unguarded_id_copy_unlocks_owned :
+    (let r := srun TaskIds.noGuards guardedCfg C18_witness_sparse (rinit none)
+     (0, 0) ∈ r.base.held ∧ inRoster r.base.roster 0 = true ∧ lockedIn r.base.roster 0 = false ∧
+     r.base.log.all (fun o => match o with | .kill _ _ _ _ => false | _ => true) = true ∧
+     sviews TaskIds.noGuards guardedCfg C18_witness_sparse (rinit none) = [[(0, true)], [(0, false)]] ∧
+     allR r.base.log r.subs = true ∧
+     allS r.base.log r.subs (sviews TaskIds.noGuards guardedCfg C18_witness_sparse (rinit none)) = false) ∧
+    (let r := srun TaskIds.codeGuards guardedCfg C18_witness_sparse (rinit none)
+     (0, 0) ∈ r.base.held ∧ lockedIn r.base.roster 0 = true ∧
+     sviews TaskIds.codeGuards guardedCfg C18_witness_sparse (rinit none) = [[(0, true)], [(0, true)]] ∧
+     allS r.base.log r.subs (sviews TaskIds.codeGuards guardedCfg C18_witness_sparse (rinit none)) = true) := by
+  decide
+
+/-- Either guard alone is not enough: a guard configuration under which no update ever unlocks is the code's. -/
+theorem C18_id_guards_needed (g : TaskIds.Guards) :
+    (∀ k u, TaskIds.unlocks g k u = false) ↔ g = TaskIds.codeGuards := by
+  constructor
+  · intro h
+    obtain ⟨ga, ge⟩ := g
+    have h1 := h .running { agent := false, executor := true }
+    have h2 := h .running { agent := true, executor := false }
+    cases ga <;> cases ge <;> simp_all [TaskIds.unlocks, TaskIds.codeGuards]
+  · rintro rfl k u; exact unlocks_code k u
+
 /-! ## the code as it is NOW -/
 
 /-- Everything above, instantiated at the configuration read off the code on this run: same identity,
@@ -669,3 +783,10 @@ example : C18_witness_late.all (rstepOk guardedCfg) = true ∧ noLateOrphans gua
      r.base.log.head? = some (.snap 2 [0]) ∧ r.missed = [0] ∧ r.hidden = [] ∧
      sameIdentity r.base.log = true ∧ ownedSpared r.base.log = true ∧ identityKept r.subs = true ∧ oneFramework r.subs = true ∧
      orphansKilledEachSubscription r.base.log = false) := by decide
+
+/-- The sparse witness is a legal history for the other theorems (listed states, no late orphan), it really contains a
+    message that goes to updateTaskStatus and lacks a field, and both quiet points are taken. -/
+example : (C18_witness_sparse.map SStep.erase).all (rstepOk guardedCfg) = true ∧
+    noLateOrphans guardedCfg (C18_witness_sparse.map SStep.erase) (rinit none) = true ∧
+    (srun TaskIds.codeGuards guardedCfg (C18_witness_sparse.take 12) (rinit none)).base.headUpdates guardedCfg = some (0, .running) ∧
+    (sviews TaskIds.codeGuards guardedCfg C18_witness_sparse (rinit none)).length = 2 := by decide
